@@ -282,7 +282,11 @@ def evaluate(ctx, case):
             ctx.count("model:" + toks[0])
             return
         if toks[0] == "E":
-            if top != ("err", toks[1]):
+            if top[0] == "err" and top[1] != toks[1]:
+                # both refuse the file, with different exception classes (a bond naming an atom number that is not in
+                # [ atoms ]: a bare KeyError today, IOError with a message in benign change C15-3): C15 names no class
+                ctx.count(f"refusal-class-differs-from-model:{top[1]}-vs-{toks[1]}")
+            elif top != ("err", toks[1]):
                 dis("read_topology exception", top if top[0] == "err" else "loaded", toks[1])
             return
         if top[0] == "err":
